@@ -169,7 +169,14 @@ static void add_ref_common(World &w, const Step &st, bool obj) {
     MVal *t = w.pick(st.A(2), st.A(3), [&](MVal *m) { return mv_root(m) != croot; });
     if (!t) { w.noop(st, "no target in another tree"); return; }
     std::string key = st.S(0).c_str();
-    cJSON_bool r = obj ? cJSON_AddItemReferenceToObject(c->c, key.c_str(), t->c) : cJSON_AddItemReferenceToArray(c->c, t->c);
+    const char *keyarg = key.c_str();
+    if (obj && t->keystate == K_KNOWN && t->c && t->c->string && ((uint64_t)st.A(3) / 7919) % 3 == 0) {
+        // the key argument aliases the referenced item's own key: AddItemReferenceToObject(view, item->string, item)
+        key = t->key;
+        keyarg = t->c->string;
+        w.stats.probes["reference_added_under_the_items_own_key"]++;
+    }
+    cJSON_bool r = obj ? cJSON_AddItemReferenceToObject(c->c, keyarg, t->c) : cJSON_AddItemReferenceToArray(c->c, t->c);
     if (w.tolerate_failure(!r)) return;
     w.expect(r, "return", "AddItemReferenceTo* returned false");
     MVal *m = mv_new(t->type); m->refkind = R_ITEM; m->target = t; m->num = t->num;
@@ -178,6 +185,40 @@ static void add_ref_common(World &w, const Step &st, bool obj) {
     mv_add_kid(c, m, c->kids.size());
     w.stats.probes["reference_node_created"]++;
     w.log.add(st.op + " -> ref to " + mv_dump(t, 40));
+}
+// Re-keying an item that reference nodes point at: DetachItemViaPointer + AddItemToObject under another name. References
+// borrow the item's children and value text, not its name or its place, so this is a legal edit of a referenced tree (the
+// only one the model admits): nothing a reference borrows is released or relinked. Restrictions that keep that true: the
+// item is not its parent's first child (the parent's own child pointer, which a reference to the parent copied, stays),
+// and no array/object reference (which borrows a sibling chain, not an item) points into the tree.
+DEFOP(rekey_referenced) {
+    bool chain_borrowed = false;
+    std::vector<MVal *> refs;
+    for (int i = 0; i < NSLOTS; i++) if (w.slots[i]) mv_collect(w.slots[i], refs);
+    MVal *x = w.pick(st.A(0), st.A(1), [&](MVal *m) {
+        MVal *p = m->parent;
+        if (!p || p->type != T_OBJECT || p->refkind != R_NONE || m->keystate != K_KNOWN || m->constkey || p->kids.front() == m) return false;
+        MVal *root = mv_root(m);
+        if (root->frozen == 0) return false;
+        for (MVal *q = p; q; q = q->parent) if (q->refkind != R_NONE) return false;
+        for (MVal *r : refs) if (r->refkind == R_CHILD && r->target && mv_root(r->target) == root) return false;
+        return true;
+    });
+    (void)chain_borrowed;
+    if (!x) { w.noop(st, "no referenced tree with a member that can be renamed"); return; }
+    MVal *p = x->parent;
+    std::string key = st.S(0).c_str();
+    cJSON *d = cJSON_DetachItemViaPointer(p->c, x->c);
+    if (d != x->c) { w.mismatch("return", "DetachItemViaPointer did not return the item"); return; }
+    cJSON_bool r = cJSON_AddItemToObject(p->c, key.c_str(), x->c);
+    if (!r && asim::fail_fired_in_step()) r = cJSON_AddItemToObject(p->c, key.c_str(), x->c);  // the injected failure hit the key copy: the item is still ours, add it again
+    if (!r) { w.mismatch("return", "AddItemToObject of a detached member returned false"); return; }
+    mv_detach(x);
+    x->keystate = K_KNOWN; x->key = key; x->constkey = false; x->keypool = -1;
+    mv_add_kid(p, x, p->kids.size());
+    w.stats.probes["referenced_item_renamed"]++;
+    w.mark_nontrivial();
+    w.log.add("rekey_referenced -> " + Q(key));
 }
 DEFOP(add_ref_arr) { add_ref_common(w, st, false); }
 DEFOP(add_ref_obj) { add_ref_common(w, st, true); }
